@@ -37,8 +37,17 @@ func VerifC01WriteSequence() {
 	symbols := []string{"", "m7", "sus4"}
 	for i := 0; i < n; i++ {
 		var in op.Instance
-		value := []float64{1, 0.5, 1.5}[i%3]
-		in.Values = []note.Value{{Rat: util.NewRat([]uint{1, 1, 3}[i%3], []uint{1, 2, 2}[i%3])}}
+		// one or two duration fractions; the instance's length is their sum, handed over once
+		fr := [][2]uint{{1, 1}, {1, 2}, {3, 2}, {1, 7}, {2, 3}}
+		f1 := fr[(i*2)%5]
+		in.Values = []note.Value{{Rat: util.NewRat(f1[0], f1[1])}}
+		var value float64
+		value += float64(f1[0]) / float64(f1[1])
+		if vf.NondetIntRange("fractions", 1, 2) == 2 {
+			f2 := fr[(i*2+3)%5]
+			in.Values = append(in.Values, note.Value{Rat: util.NewRat(f2[0], f2[1])})
+			value += float64(f2[0]) / float64(f2[1])
+		}
 		hasBPM := vf.NondetIntRange("hasBPM", 0, 1) == 1
 		hasKey := vf.NondetIntRange("hasKey", 0, 1) == 1
 		hasVel := vf.NondetIntRange("hasVel", 0, 1) == 1
